@@ -128,9 +128,12 @@ def getDeref (os : Objects) (d : Dict) (key : Bytes) : Option Obj := (d.get key)
 def catalog (trailer : Dict) (os : Objects) : Option Dict :=
   ((trailer.get ROOT).bind Obj.asRef).bind (getDictionary os)
 
-/-- `Document::get_encrypted` -/
+/-- `Document::get_encrypted`: the encryption dictionary given directly in the trailer, or by reference -/
 def getEncrypted (trailer : Dict) (os : Objects) : Option Dict :=
-  ((trailer.get K_Encrypt).bind Obj.asRef).bind (getDictionary os)
+  match trailer.get K_Encrypt with
+  | some (.dict d) => some d
+  | some o => o.asRef.bind (getDictionary os)
+  | none => none
 
 /-! ### sorted maps (`BTreeMap<Vec<u8>, _>`) -/
 
